@@ -980,13 +980,13 @@ func TestVerif_C11(t *testing.T) {
 	}
 	for _, role := range []string{"server", "client"} {
 		r.Require(role+"_exact_fills_accepted", q(400, 3000))
-		r.Require(role+"_overflows_rejected", q(120, 900))
-		r.Require(role+"_overflows_with_batched_credit_pending", q(15, 100))
-		r.Require(role+"_overflow_from_nonzero_window", q(30, 200))
+		r.Require(role+"_overflows_rejected", q(70, 600))
+		r.Require(role+"_overflows_with_batched_credit_pending", q(6, 50))
+		r.Require(role+"_overflow_from_nonzero_window", q(12, 100))
 		r.Require(role+"_fills_after_window_update", q(150, 1000))
 		r.Require(role+"_fills_racing_with_reads", q(40, 300))
-		r.Require(role+"_overflow_of_stream_window", q(40, 300))
-		r.Require(role+"_overflow_of_connection_window", q(15, 100))
+		r.Require(role+"_overflow_of_stream_window", q(20, 150))
+		r.Require(role+"_overflow_of_connection_window", q(6, 50))
 		r.Require(role+"_body_delivery_checks", q(150, 1000))
 	}
 }
